@@ -12,7 +12,7 @@ THEOREMS = {
     'C08': ['C08.C08_confined_default', 'C08.C08_confined_fs', 'C08.C08_escape_as_found'],
     'C09': ['C05.C09_sound', 'C05.C09_no_reauth', 'C05.C09_logindisabled', 'C05.C09_failed_keeps'],
     'C10': ['C10.C10_seqset', 'C10.C10_store_refines', 'C10.C10_expunge_refines', 'C10.C10_append_refines', 'C10.C10_permitted',
-            'C10.C10_copy_refines', 'C10.C10_copy_uids', 'C10.C10_move_refines', 'C10.C10_server_copyMove', 'C10.C10_server_copy_spec'],
+            'C10.C10_copy_refines', 'C10.C10_copy_uids', 'C10.C10_move_refines', 'C10.C10_server_copyMove', 'C10.C10_server_copy_spec', 'C10.C10_server_expunge'],
     'C11': ['C11.C11_star_all', 'C11.C11_pct', 'C11.C11_literal', 'C11.C11_list', 'C11.C11_inbox_guard',
             'C11.C11_errors_unchanged', 'C11.C11_conflicts', 'C11.C11_rename', 'C11.C11_rename_inbox'],
     'C12': ['C12.C12_frame', 'C12.C12_frame_program', 'C12.C12_answers', 'C05.C12_readonly_refuses'],
